@@ -22,10 +22,11 @@ def mdl_effective(mdl):
 
 
 class Line:
-    def __init__(self, category, nuclide, level=None, mode=None, emin=None, emax=None, seed=1, count=1, activity=None, mdl=False, raw=None, tag=''):
+    def __init__(self, category, nuclide, level=None, mode=None, emin=None, emax=None, seed=1, count=1, activity=None, mdl=False, raw=None, tag='', raw_after=None):
         self.category, self.nuclide, self.level, self.mode = category, nuclide, level, mode
         self.emin, self.emax, self.seed, self.count, self.activity, self.mdl = emin, emax, seed, count, activity, mdl
         self.raw = raw  # extra raw argv (malformed lines)
+        self.raw_after = raw_after  # the same, placed after the basename (i.e. after an otherwise complete command line)
         self.tag = tag
 
     def argv(self, basename):
@@ -44,6 +45,7 @@ class Line:
                 a += [MDL_FLAG[k], MDL[k] if k == 'label' else (str(MDL[k]) if k == 'rank' else repr(MDL[k]))]
         if self.raw: a += self.raw
         if basename is not None: a += [basename]
+        if self.raw_after: a += self.raw_after
         return a
 
     def key(self):
@@ -58,7 +60,7 @@ class Line:
 
     def cli_rule_refuses(self, pub_bkg, pub_dbd):
         """refusals that are the command line's own (README / --help), independent of the implementation"""
-        if self.raw is not None: return 'malformed command line'
+        if self.raw is not None or self.raw_after is not None: return 'malformed command line'
         if self.category not in ('dbd', 'background'): return 'unsupported category'
         if self.category == 'background' and self.nuclide not in pub_bkg: return 'unpublished background nuclide'
         if self.category == 'dbd':
@@ -104,6 +106,8 @@ def lines(tier):
         Line('background', 'Co60', activity=-2.0, tag='negative-activity'), Line('alpha', 'Co60', tag='bad-category'), Line(None, 'Co60', tag='no-category'),
         Line('background', None, tag='no-nuclide'), Line('background', 'Co60', raw=['--frobnicate'], tag='unknown-option'), Line('background', 'Co60', raw=['extra-positional'], tag='two-positionals'),
         Line('background', 'Co60', raw=['-n', 'many'], tag='non-numeric-count'),
+        Line('background', 'Co60', count=2, raw_after=['--no-such-option'], tag='unknown-option-after-basename'), Line('background', 'Co60', count=2, raw_after=['--no-such-option', '1'], tag='unknown-option-with-value-after-basename'),
+        Line('dbd', 'Mo100', level=0, mode=1, count=2, raw_after=['-n'], tag='option-without-value-after-basename'), Line('background', 'Co60', count=2, raw_after=['-s', 'x'], tag='non-numeric-seed-after-basename'),
     ]
     return out
 
@@ -339,7 +343,7 @@ def run(tier, rep):
         'command_lines': len(L), 'accepted_lines': stats['accepted'], 'refused_lines': stats['refused'], 'kill_point_runs': stats['kill_runs'],
         'write_calls_enumerated': writes_total, 'kill_lines': len(kl), 'exhaustive': True, 'samples': samples or ['none'],
         'rule': 'command lines: product over category x nuclides x level x mode x window {none, both, only -e, only -E} x seed x count x activity x MDL options (sub-sampled in the '
-                'quick tier by a fixed stride) plus 23 lines that must be refused; each line is run twice on the binary built from /repo (byte-identical event files), its records '
+                'quick tier by a fixed stride) plus ~27 lines that must be refused (incl. malformed arguments placed after an otherwise complete command line); each line is run twice on the binary built from /repo (byte-identical event files), its records '
                 'are counted and numbered, compared byte for byte with an in-process recomputation through decay0_generator + std::default_random_engine(seed) (activity delays drawn '
                 'from the same engine), and the companion file is compared with the effective settings; refused lines must leave no record and no completion marker, also when they re-use the basename of an earlier successful run; each MDL option alone switches the operation on with the documented defaults for the others. Kill points: '
                 'for each of %d command lines EVERY write()/writev() to the two files is numbered through an LD_PRELOAD shim and the run is repeated killing the process before write k, '
